@@ -317,9 +317,13 @@ bool ManifestParser::ParseEdge(string* err) {
   if (!ExpectToken(Lexer::NEWLINE, err))
     return false;
 
-  // Bindings on edges are rare, so allocate per-edge envs only when needed.
+  // The build statement gets a scope of its own even without indented
+  // bindings: variables are looked up in the build block, then in the rule,
+  // then in the enclosing file scopes.  If the edge shared the file scope, a
+  // file-level variable named like a rule variable (e.g. "command" or
+  // "description") would shadow the rule's binding.
   bool has_indent_token = lexer_.PeekToken(Lexer::INDENT);
-  BindingEnv* env = has_indent_token ? new BindingEnv(env_) : env_;
+  BindingEnv* env = new BindingEnv(env_);
   while (has_indent_token) {
     string key;
     EvalString val;
